@@ -152,6 +152,9 @@ class Gen:
             if fk in self.counts:
                 v &= ~(((1 << w) - 1) << off)
                 v |= (min(self.counts[fk], (1 << w) - 1)) << off
+            elif fk in self.overrides:
+                v &= ~(((1 << w) - 1) << off)
+                v |= (self.overrides[fk] & ((1 << w) - 1)) << off
             off += w
         return v.to_bytes(n, "little")
 
